@@ -27,6 +27,8 @@ CONSTANTS
   Families,      \* which families Init enumerates
   BufSizes,      \* write buffer sizes of the single family
   CompCfgs,      \* set of <<level, content>>: compression negotiated, at that level, on that kind of payload
+  XBufSizes,     \* (thorough) further buffer sizes of the single family, from 1 byte up, with XCompCfgs
+  XCompCfgs,
   MultiBufSizes, \* buffer sizes of the multi-message families
   MultiCompCfgs,
   BigSizes, RandSizes, RandCalls,
@@ -91,9 +93,11 @@ MsgsOf(cc, steps) ==
   [k \in 1..Len(steps) |-> [t |-> steps[k].t, size |-> steps[k].size, z |-> Negotiated(cc) /\ steps[k].wc,
                              nl |-> steps[k].api = "JS"]]
 
+\* over: before closing, the application also asks for control frames of 126 bytes (WriteControl and
+\* WriteMessage with a control type). Whatever the calls return, no such frame may reach the wire.
 Session(fam, role, cc, bs, steps) ==
   [fam |-> fam, role |-> role, comp |-> Negotiated(cc), lvl |-> cc[1], content |-> cc[2], bs |-> bs,
-   steps |-> steps, msgs |-> MsgsOf(cc, steps)]
+   steps |-> steps, msgs |-> MsgsOf(cc, steps), over |-> FALSE]
 
 \* ------------------------------------------------------------------ families
 \* (state predicates "ses is a session of the family": TLC enumerates them as initial states)
@@ -103,9 +107,12 @@ MinBuf    == CHOOSE m \in MultiBufSizes : \A o \in MultiBufSizes : m <= o
 Single == \E bs \in BufSizes, r \in Roles, cc \in ({Off} \cup CompCfgs) : \E st \in SingleSteps(bs) :
             ses = Session("single", r, cc, bs, <<st>>)
 
+XSingle == \E bs \in XBufSizes, r \in Roles, cc \in ({Off} \cup XCompCfgs) : \E st \in SingleSteps(bs) :
+             ses = Session("single", r, cc, bs, <<st>>)
+
 Pair == \E e \in MultiEnvs, a \in 1..8, b \in 1..8, ctl \in BOOLEAN :
           LET st == Renumber(<<Menu(e[3])[a], Menu(e[3])[b]>>)
-          IN ses = Session("pair", e[1], e[2], e[3], IF ctl THEN WithCtl(st) ELSE st)
+          IN ses = [Session("pair", e[1], e[2], e[3], IF ctl THEN WithCtl(st) ELSE st) EXCEPT !.over = ctl]
 
 Triple == \E e \in MultiEnvs, a \in TripleMenu, b \in TripleMenu, c \in TripleMenu :
             /\ e[3] = MinBuf
@@ -118,7 +125,7 @@ Rand == \E e \in MultiEnvs, api \in Streaming, n \in RandSizes, calls \in RandCa
           ses = Session("rand", e[1], e[2], e[3], <<[StepOf(api, 2, n, 1, <<>>) EXCEPT !.rand = calls]>>)
 
 \* ------------------------------------------------------------- transitions
-Init == \/ "single" \in Families /\ Single
+Init == \/ "single" \in Families /\ (Single \/ XSingle)
         \/ "pair"   \in Families /\ Pair
         \/ "triple" \in Families /\ Triple
         \/ "big"    \in Families /\ Big
@@ -136,7 +143,7 @@ WalkNext ==
            s  == IF ctl THEN [s0 EXCEPT !.ping = (IF k % 2 = 1 THEN 0 ELSE 125),
                                         !.mid = (IF s0.api \in {"NW", "WS"} THEN 1 ELSE -1)] ELSE s0
            st == Append(ses.steps, s)
-       IN ses' = [ses EXCEPT !.steps = st, !.msgs = MsgsOf(<<ses.lvl, ses.content>>, st)]
+       IN ses' = [ses EXCEPT !.steps = st, !.msgs = MsgsOf(<<ses.lvl, ses.content>>, st), !.over = (ses.over \/ ctl)]
 WalkSpec == WalkInit /\ [][WalkNext]_vars
 
 \* -------------------------------------------------------------- properties
